@@ -30,7 +30,7 @@ def _mk(n, vkind):
         des = lambda s: s.load_coins()
     elif vkind == 'addr':
         hm.with_address_values()
-        des = lambda s: (lambda a: (a.wc, a.hash_part.hex()))(s.load_address())
+        des = lambda s: (lambda a: None if a is None else (a.wc, a.hash_part.hex()))(s.load_address())
     else:  # cell in ref
         hm.value_serializer = lambda src, dest: dest.store_ref(src)
         des = lambda s: s.load_ref().hash
@@ -45,6 +45,8 @@ def _val(vkind, v):
     if vkind == 'int':
         return (v & 0xFFFFFFFF) - (1 << 31), (v & 0xFFFFFFFF) - (1 << 31)
     if vkind == 'addr':
+        if v % 7 == 3:
+            return None, None                         # addr_none$00: a value like any other (two bits), not "no value"
         h = (v & 0xFFFFFFFF).to_bytes(32, 'big')
         return Address((v % 5 - 2, h)), (v % 5 - 2, h.hex())
     c = Builder().store_uint(v & 0xFFFFFFFF, 32).end_cell()
@@ -102,7 +104,7 @@ def _overflows(n, model, vkind):
         if vkind == 'coins':
             return 4 + 8 * ((v.bit_length() + 7) // 8)
         if vkind == 'addr':
-            return 267
+            return 2 if v is None else 267
         return 0
     mapping = {format(k, '0%db' % n): ('0' * vbits(v), []) for k, v in model.items()}
     from harness.ref.refcell import RefCellError
@@ -268,6 +270,20 @@ def check(case):
         if not ok2 or sorted(got.items()) != sorted(model2.items()):
             return Fail('stale-or-wrong-after-update/value-writer-replaced', f'n={n}: serialised with 32-bit values, with_uint_values(40), serialised '
                         f'again: {sorted(got.items())[:4] if ok2 else got!r}')
+        # a value replaced by one python's hash() cannot tell from it (-1 / -2; v and v + 2^61 - 1): the new value is written
+        hmh = HashMap(n).with_int_values(65)
+        keys_h = sorted(model2)[:3]
+        for i, kk in enumerate(keys_h):
+            hmh.set(kk, -1 if i == 0 else 12345 + i)
+        ok, ch1 = call(hmh.serialize)
+        if ok and ch1 is not None:
+            exp_h = {kk: (-2 if i == 0 else 12345 + i + ((1 << 61) - 1)) for i, kk in enumerate(keys_h)}
+            for kk, vv in exp_h.items():
+                hmh.set(kk, vv)
+            ok, ch2 = call(hmh.serialize)
+            ok2, got = call(lambda: ch2.begin_parse().load_hashmap(n, value_deserializer=lambda s_: s_.load_int(65))) if ok and ch2 is not None else (False, ch2)
+            if not ok2 or got != exp_h:
+                return Fail('stale-or-wrong-after-update/value-replaced-by-a-hash-equal-one', f'n={n}: {got if ok2 else got!r}, expected {exp_h}')
         boxes = {k: [v] for k, v in model2.items()}
         hm3 = HashMap(n, value_serializer=lambda src, dest: dest.store_uint(src[0], 32))
         for k in boxes:
